@@ -196,7 +196,11 @@ func (r *runner) mutate1() {
 	const scen = "mutate1"
 	sc := r.res.Scenario(scen)
 	var positions int64
-	for _, b := range r.allBases() {
+	docs := r.bases // quick: the documents signed by the key they name
+	if vk.Thorough() {
+		docs = r.allBases() // + the ones re-signed by the other key
+	}
+	for _, b := range docs {
 		D := []byte(b.signed)
 		n := len(D)
 		positions += int64(n) + 1
@@ -247,8 +251,10 @@ func (r *runner) mutate1() {
 	for _, b := range r.bases {
 		shapes[b.doc.name] = true
 	}
-	sc.Bound = fmt.Sprintf("%d signed documents (%d document shapes x %d signature times x 2 keys = %d, plus %d re-signed by the other key while naming the first), %d byte positions in total; at every position: deletion, %s; every proper prefix and suffix", len(r.allBases()), len(shapes), nTimes(), len(r.bases), len(r.resigned), positions, alpha)
+	sc.Bound = fmt.Sprintf("%d signed documents (%d document shapes x %d signature times x 2 keys = %d; thorough adds the %d re-signed by the other key while naming the first), %d byte positions in total; at every position: deletion, %s; every proper prefix and suffix", len(docs), len(shapes), nTimes(), len(r.bases), len(r.resigned), positions, alpha)
 }
+
+var quickPairShapes = map[string]bool{"minimal": true, "nested": true, "lookalike": true, "minimal-twice": true}
 
 type edit struct {
 	kind string // del, sub, ins
@@ -279,10 +285,10 @@ func (r *runner) mutate2() {
 	if vk.Thorough() {
 		before, after, tail = 8, 6, 6
 	} else {
-		// quick: one signature time, first key
+		// quick: one signature time, first key, four shapes
 		var bs []*base
 		for _, b := range bases {
-			if b.tname == sigTimes[0].name && b.key.idx == 0 {
+			if b.tname == sigTimes[0].name && b.key.idx == 0 && quickPairShapes[b.doc.name] {
 				bs = append(bs, b)
 			}
 		}
@@ -551,6 +557,10 @@ func (r *runner) signGrammar() {
 	sc := r.res.Scenario(scen)
 	u := r.u
 	count := 0
+	gt := 1 // signature times for the grammar: quick 1, thorough all
+	if vk.Thorough() {
+		gt = nTimes()
+	}
 	for _, ex := range extras {
 		members := []string{`"camliVersion":1`, `"camliSigner":"$S"`}
 		if ex.member != "" {
@@ -567,7 +577,7 @@ func (r *runner) signGrammar() {
 						tmpl := ld.w + "{" + ws.w + strings.Join(parts, ws.w+","+ws.w) + ws.w + "}" + tr.w
 						for _, key := range u.keys {
 							for _, useSha1 := range []bool{false, true} {
-								for ti := 0; ti < nTimes(); ti++ {
+								for ti := 0; ti < gt; ti++ {
 									count++
 									if !r.mine() {
 										continue
@@ -583,7 +593,7 @@ func (r *runner) signGrammar() {
 			}
 		}
 	}
-	sc.Bound = fmt.Sprintf("%d unsigned documents: %d extra-member shapes x every member order x %d whitespace styles x %d trailing x %d leading whitespace x 2 keys x {sha224,sha1} signer ref x %d signature times", count, len(extras), len(wsStyles), len(trailings), len(leadings), nTimes())
+	sc.Bound = fmt.Sprintf("%d unsigned documents: %d extra-member shapes x every member order x %d whitespace styles x %d trailing x %d leading whitespace x 2 keys x {sha224,sha1} signer ref x %d signature times; plus the %d base documents of the mutation scenarios (%d signature times)", count, len(extras), len(wsStyles), len(trailings), len(leadings), gt, len(r.bases), nTimes())
 }
 
 func (r *runner) checkO1(sc *vk.Scenario, scen string, b *base, signErr error, shape string) {
